@@ -479,7 +479,9 @@ class Bits:
         else:
             # We can't in general hash the whole bitstring (it could take hours!)
             # So instead take some bits from the start and end.
-            return hash(((self[:800] + self[-800:]).tobytes(), len(self)))
+            # These have to be the same bits whether or not lsb0 mode is set.
+            start_and_end = self._absolute_slice(0, 800) + self._absolute_slice(len(self) - 800, len(self))
+            return hash((start_and_end.tobytes(), len(self)))
 
     def __bool__(self) -> bool:
         """Return False if bitstring is empty, otherwise return True."""
